@@ -15,7 +15,9 @@ INT_RANGES = {"TInt32": (-2 ** 31, 2 ** 31 - 1), "TInt64": (-2 ** 63, 2 ** 63 - 
               "TUns32": (0, 2 ** 32 - 1), "TUns64": (0, 2 ** 64 - 1)}
 T_LO, T_HI = -61505152, 4233462144        # 1968-01-20 03:14:08 .. 2104-02-26 09:42:24 (exclusive)
 OCTET_LENS = [0, 1, 2, 3, 4, 5, 6, 7, 8, 9, 15, 16, 17, 255, 256, 257, 1021, 1022, 1023, 1024, 4093, 4094, 4095, 4096]
-TEXTS = ["", "a", "host.example.net", "é", "€", "\U0001F600", "aé€\U0001F600z", "\x00", "\x7f\x80߿ࠀ￿\U00010000\U0010ffff"]
+TEXTS = ["", "a", "host.example.net", "é", "€", "\U0001F600", "aé€\U0001F600z", "\x00", "\x7f\x80߿ࠀ￿\U00010000\U0010ffff",
+         # not in Unicode normal form C: the octets are those of the code points given, nothing is normalised
+         "cafe\u0301", "\u212b", "\u1100\u1161\u11a8", "a\u0323\u0307"]
 F64 = [0.0, -0.0, 1.0, -1.0, float("inf"), float("-inf"), 5e-324, -5e-324, 2.2250738585072014e-308,
        1.7976931348623157e308, 3.141592653589793, 0.1, 1e-310]
 F32_BITS = [0, 0x80000000, 0x7f800000, 0xff800000, 1, 0x007fffff, 0x00800000, 0x7f7fffff, 0x3f800000,
@@ -247,7 +249,8 @@ def check(run):
     # -- every dictionary entry -----------------------------------------
     all_entries = [(c, v, t, m) for c, v, t, m, _, _ in rows] + [(c, v, t, {0: None, 1: False, 2: True}[m]) for c, v, t, m, _, _ in extra]
     per_entry = 3 if thorough else 1
-    mp = [(None, None), (True, None), (False, None), (None, True), (True, True), (False, False)]
+    mp = [(None, None), (True, None), (False, None), (None, True), (True, True), (False, False), (True, False), (None, False),
+          (False, True)]
     for idx, (code, vendor, tn, dflt) in enumerate(all_entries):
         for j in range(per_entry):
             bidx = (idx + j) if (j % 2 == 0) else None
